@@ -21,4 +21,8 @@ package singleflight
 //@   ensures [C16] follower_gets_that_executions_result: joined ==> v == C.val && err == C.err && at(@Unlock#1, C.dups) == at(@Lock#1, C.dups) + 1
 //@   ensures [C16] leader_executes_once: !joined ==> called(@fn#1) && g.$runs == old(g.$runs) + 1 && v == @fn#1.0 && err == @fn#1.1
 //@   ensures [C16] leader_is_told_how_many_joined: !joined ==> count == at(@Unlock#2, g.m[key]).dups && called(@Done#1)
+// calls in flight for other keys stay registered: what this call does to the table concerns its own key only
+//@   ensures [C16] other_keys_stay_registered_while_this_call_joins: joined ==> forall k string :: k != key ==> before(@Unlock#1, (k in g.m)) == at(@Lock#1, g.m != nil && (k in g.m))
+//@   ensures [C16] other_keys_stay_registered_while_this_call_registers: !joined ==> forall k string :: k != key ==> before(@Unlock#2, (k in g.m)) == at(@Lock#1, g.m != nil && (k in g.m))
+//@   ensures [C16] other_keys_stay_registered_when_this_call_finishes: !joined ==> forall k string :: k != key ==> before(@Unlock#3, g.m != nil && (k in g.m)) == at(@Lock#2, g.m != nil && (k in g.m))
 //@   ensures [C16] next_call_executes_afresh: !joined ==> called(@Lock#2) && at(@Unlock#3, !(key in g.m))
